@@ -77,7 +77,23 @@ def run(ctx, res):
                     why = "name=%s attrs=%s" % (name, attrs[:120])
     clos = [n for n in T.nodes(b["tree"], "closure") if n is not m["closure"]]
     amap = [T.render(c) for c in clos]
-    if not any(r.replace(" ", "") in ("|(name,value)|Attribute{name:name,value:*value}",) for r in amap):
+
+    def maps_pair_to_attribute(c):
+        # |(a, b)| Attribute { name: a, value: *b }  - by binding, not by spelling
+        if len(c["params"]) != 1:
+            return False
+        pt = c["params"][0]["pat"]
+        while pt.get("p") == "ref":
+            pt = pt["pat"]
+        if pt.get("p") != "tuple" or len(pt["pats"]) != 2 or any(x.get("p") != "bind" for x in pt["pats"]):
+            return False
+        a_id, b_id = pt["pats"][0]["id"], pt["pats"][1]["id"]
+        body = T.peel(c["body"])
+        if body.get("k") != "struct" or not (body["res"].get("path") or "").endswith("Attribute"):
+            return False
+        fe = {f["name"]: T.peel_ref(f["e"]) for f in body["fields"]}
+        return set(fe) == {"name", "value"} and T.local_of(fe["name"]) == a_id and T.local_of(fe["value"]) == b_id
+    if not any(maps_pair_to_attribute(c) for c in clos):
         ok = False
         why = why or "attribute mapping closure is %s" % amap
     if ok:
@@ -95,12 +111,25 @@ def strip_once(ctx, res):
     fn = fshort(b)
     res.obligations += 2
     str_ops = []
-    for s in T.nodes(b["tree"], "let"):
-        if s["pat"]["p"] == "bind" and s["pat"]["name"] == "target" and s.get("init") is not None:
-            for n in T.nodes(s["init"], "mcall"):
+    # the scanned string: the receiver of the `char_indices()` traversal; its definition is followed back through immutable
+    # lets (an extracted and re-inlined helper introduces such lets) up to token.value
+    lets = {s_["pat"]["id"]: s_ for s_ in T.nodes(b["tree"], "let") if s_["pat"]["p"] == "bind" and s_.get("init") is not None}
+    scanned = [T.local_of(T.peel_ref(n["recv"])) for n in T.nodes(b["tree"], "mcall") if n["name"] == "char_indices"]
+    work = [x for x in scanned if x in lets]
+    seen_l = set()
+    while work:
+        lid = work.pop()
+        if lid in seen_l:
+            continue
+        seen_l.add(lid)
+        s_ = lets[lid]
+        for n in T.nodes(s_["init"]):
+            if n.get("k") == "mcall":
                 rty = (n["recv"].get("aty") or n["recv"].get("ty") or "")
                 if rty.lstrip("&") in ("str", "std::string::String") or rty.endswith("&str"):
                     str_ops.append(n)
+            if n.get("k") == "path" and T.local_of(n) in lets and "Mut" not in lets[T.local_of(n)]["pat"].get("mode", ""):
+                work.append(T.local_of(n))
     if not str_ops:
         res.cannot("C09.R3", fn, "strip", "no string operation between token.value and the parsed body found", T.loc(b["tree"]))
         return
